@@ -1375,8 +1375,8 @@ def acf_scenario(c, k):
     blocks = []
     if c["cross"]:
         extra.append("  corrFuncWithColvar v1")
-        blocks += var_block({"id": 1, "type": ty, "value": True})
-    blocks += var_block({"id": 0, "type": ty, "value": True}, extra)
+        blocks += vvar_block(ty, 1)
+    blocks += vvar_block(ty, 0, extra)
     conf = heredoc(["colvarsTrajFrequency 0"] + blocks)
     L = ["echo CASE %d" % k, "natoms 4", "temperature 300", "dt %r" % c["dt"], "prefix c%ds0" % k, "restartfreq %d" % c["R"], "new"]
     if c["it0"]:
@@ -1387,7 +1387,7 @@ def acf_scenario(c, k):
             for vid, x in ((0, ev[1]), (1, ev[2])):
                 if x is None:
                     continue
-                if ty == "z":
+                if ty in ("z", "zper"):
                     L.append("pos %d 0 0 %s" % (2 * vid + 1, hx(x)))
                 else:
                     L.append("pos %d %s %s %s" % (2 * vid + 1, hx(x[0]), hx(x[1]), hx(x[2])))
@@ -1402,6 +1402,16 @@ def acf_scenario(c, k):
 
 def vecf(x):
     return [Fr(q) for q in x] if isinstance(x, (list, tuple)) else [Fr(x)]
+
+
+def tval(c, x):
+    """the variable's value for an imposed position: wrapped for the periodic type, normalised for the unit vector"""
+    if c["vtype"] == "zper":
+        return wrapz(x)
+    if c["vtype"] == "unit":
+        n = math.sqrt(x[0] * x[0] + x[1] * x[1] + x[2] * x[2])
+        return [x[0] / n, x[1] / n, x[2] / n]
+    return x
 
 
 def acf_history(c):
@@ -1425,8 +1435,8 @@ def acf_history(c):
         else:
             repeated = True
         boundary = False
-        xs = vecf(ev[1])
-        xo = vecf(ev[2]) if c["cross"] else xs
+        xs = vecf(tval(c, ev[1]))
+        xo = vecf(tval(c, ev[2])) if c["cross"] else xs
         rel = it - c["it0"]
         if c["type"] == "velocity":
             if rel == 0:
@@ -1560,7 +1570,9 @@ def check_acf_case(run, c, k, impl_lines, scratch, model):
 
 def gen_acf_case(r, tier):
     ty = r.choice(["coordinate", "coordinate", "velocity", "coordinate_p2"])
-    vtype = "vec" if ty == "coordinate_p2" or r.random() < 0.25 else "z"
+    vtype = r.choice(["vec", "unit"]) if ty == "coordinate_p2" else r.choice(["z", "z", "vec", "unit", "zper"])
+    if ty == "velocity" and vtype in ("unit", "zper"):
+        vtype = "z"          # velocities of these types go through dist2_lgrad: not modelled
     ln = r.choice([1, 2, 3, 4])
     stride = r.choice([1, 1, 2, 3])
     off = r.choice([0, 0, 0, 1, 2])
@@ -1574,6 +1586,8 @@ def gen_acf_case(r, tier):
     def val():
         if vtype == "z":
             return V.dyadic(r, -4, 4, 2)
+        if vtype == "zper":
+            return V.dyadic(r, -10, 10, 2)
         while True:
             v = [V.dyadic(r, -4, 4, 2) for _ in range(3)]
             if any(v):
@@ -1667,7 +1681,7 @@ def run_cases(run, cases, unit, model, scratch):
         elif c["kind"] == "runavev":
             run.dist("runavev:%s:start%s" % (c["vtype"], "=0" if c["t0"] == 0 else (":on-grid" if c["t0"] % c["stride"] == 0 else ":off-grid")))
         else:
-            run.dist("acf:%s%s%s" % (c["type"], ":cross" if c["cross"] else "", ":offset" if c["off"] else ""))
+            run.dist("acf:%s:%s%s%s" % (c["type"], c["vtype"], ":cross" if c["cross"] else "", ":offset" if c["off"] else ""))
         run.sample({"kind": c["kind"], "case": {kk: vv for kk, vv in c.items() if kk != "events"}, "n_events": len(c.get("events", [])), "compared_values": n})
     return total
 
